@@ -202,6 +202,12 @@ func (p *jsoncParser) _recover() bool {
 				return true
 			}
 
+			// An error that was shifted earlier and is now being discarded is
+			// part of the stretch being replaced: keep reporting the earliest
+			// one, which carries the token where the input first went wrong.
+			if earlier, ok := p._stack.Peek(0).Sym.(Error); ok {
+				errSym = earlier
+			}
 			p._stack.Pop(1)
 		}
 
